@@ -277,6 +277,12 @@ impl C09 {
         }
         let entry_abs = root.join(&files[0].rel);
         let entry_dir = entry_abs.parent().unwrap().to_path_buf();
+        // a decoy next to the entry file with the name the twins import from their own directories
+        // and a different shape: nothing imports it, so it must not matter
+        if files.iter().any(|f| f.rel == "tw1/leaf.ucg") && !entry_dir.join("leaf.ucg").exists() {
+            std::fs::write(entry_dir.join("leaf.ucg"), "let v = \"decoy\";\nlet total = \"not a number\";\n").expect("write decoy");
+            o.class("same-named-decoy-next-to-the-entry-file");
+        }
         let entry_file = entry_abs.file_name().unwrap().to_string_lossy().into_owned();
         let below = entry_dir.join("cwd_below");
         std::fs::create_dir_all(&below).expect("mkdir");
